@@ -190,6 +190,28 @@ def random_script(rng, sch, length, nids=12, prefill=0, law=False, values=None):
     while len(ops) < length:
         r = rng.random()
         ids = list(sh.alive)
+        if law and ids and rng.random() < 0.18:
+            # ops outside the model's fragment: judged by the consistency battery only
+            k = rng.random()
+            auto = [2000 + j for j in range(6)]
+            anyid = lambda: rng.choice(ids + auto) if rng.random() < 0.25 else rng.choice(ids)
+            if k < 0.35:
+                inner = sh.inner()
+                p = rng.choice(inner) if inner and rng.random() < 0.6 else None
+                ops.append("%s,%d,%s,%d" % (rng.choice(["dup", "dup", "dupsib"]), anyid(), "-" if p is None else p,
+                                            rng.choice([1, 1, 1, 0, 5, 0x41, 9])))
+            elif k < 0.7:
+                roots = [i for i in ids if sh.parent.get(i) is None]
+                if len(roots) >= 2:
+                    a, b = rng.sample(roots, 2)
+                    ops.append("merge,%d,%d,%d" % (a, b, rng.choice([0, 1, 1, 4])))
+                    continue
+                ops.append("merge,%d,%d,%d" % (anyid(), anyid(), rng.choice([0, 1])))
+            elif k < 0.85:
+                ops.append("validate,%d" % anyid())
+            else:
+                ops.append("implicit,%d" % anyid())
+            continue
         if r < 0.30 or not ids:
             inner = sh.inner()
             p = rng.choice(inner) if inner and rng.random() < 0.85 else None
